@@ -363,6 +363,28 @@ func (c *Ctx) guard(f *ssa.Function, env Env, chk *GCheck, events func(in ssa.In
 				if isEv && len(ret.Results) > 0 && okVals[ret.Results[len(ret.Results)-1]] {
 					isEv = false
 				}
+				// a boolean verdict assembled by short-circuit evaluation (`return ok && x != ""`): the exit accepts only when
+				// it is entered along an edge that carries something other than false, from a predecessor reachable
+				// without the check, and that value is not itself the check's verdict
+				if isEv && len(ret.Results) == 1 {
+					if phi, isPhi := ret.Results[0].(*ssa.Phi); isPhi && phi.Block() == b && isBoolType(phi.Type()) {
+						isEv = false
+						for i, p := range b.Preds {
+							if _, reachable := seen[p]; !reachable {
+								continue
+							}
+							if cut[edge{from: p, to: b}] {
+								continue
+							}
+							if k, isK := phi.Edges[i].(*ssa.Const); isK && k.Value != nil && !constant.BoolVal(k.Value) {
+								continue
+							}
+							if !okVals[phi.Edges[i]] {
+								isEv = true
+							}
+						}
+					}
+				}
 				// a single exit whose error result is a φ of this block (named results): the exit succeeds only when it
 				// is entered along an edge that carries a possibly-nil error, from a predecessor reachable without the check
 				if isEv && len(ret.Results) > 0 {
